@@ -1,5 +1,498 @@
-"""C04.R5 placeholder (inventory built later)"""
+"""C04.R5 - inventory of explicit panic constructs reachable from S3Service::call (DESIGN.md section 3, C04.R5)."""
+import json
+import os
+
+from .. import extract, flow, guards, intervals, optstate
+from ..facts import callee_def, short
+from ..report import AnchorMissing
+from ..roles import Roles
+
+TABLE = os.path.join(extract.VERIF, "oracles", "panic_sites.json")
+
+PANIC_CALLEES = {
+    "core::option::Option::<T>::unwrap": "unwrap", "core::option::Option::<T>::expect": "expect",
+    "core::result::Result::<T, E>::unwrap": "unwrap", "core::result::Result::<T, E>::expect": "expect",
+    "core::result::Result::<T, E>::unwrap_err": "unwrap_err", "core::result::Result::<T, E>::expect_err": "expect_err",
+}
+# library functions documented to panic on some arguments (the subset that occurs in, or could plausibly be edited into, the request path)
+MAY_PANIC_LIB = {
+    "core::slice::<impl [T]>::split_at": "mid > len", "core::slice::<impl [T]>::split_at_mut": "mid > len",
+    "core::str::<impl str>::split_at": "mid > len or not a char boundary",
+    "core::slice::<impl [T]>::copy_from_slice": "length mismatch", "core::slice::<impl [T]>::clone_from_slice": "length mismatch",
+    "core::slice::<impl [T]>::chunks": "chunk size 0", "core::slice::<impl [T]>::chunks_exact": "chunk size 0", "core::slice::<impl [T]>::windows": "size 0",
+    "core::slice::<impl [T]>::swap": "index out of bounds", "core::slice::<impl [T]>::rotate_left": "mid > len", "core::slice::<impl [T]>::rotate_right": "k > len",
+    "core::iter::traits::iterator::Iterator::step_by": "step 0",
+    "bytes::buf::buf_impl::Buf::advance": "cnt > remaining", "bytes::bytes::Bytes::split_to": "at > len", "bytes::bytes::Bytes::split_off": "at > len",
+    "bytes::bytes::Bytes::slice": "range out of bounds", "bytes::bytes_mut::BytesMut::split_to": "at > len", "bytes::bytes_mut::BytesMut::split_off": "at > capacity",
+    "bytes::buf::buf_impl::Buf::copy_to_slice": "dst longer than remaining", "bytes::buf::buf_impl::Buf::copy_to_bytes": "len > remaining",
+    "bytes::buf::buf_impl::Buf::get_u8": "no bytes remaining",
+    "alloc::vec::Vec::<T, A>::remove": "index out of bounds", "alloc::vec::Vec::<T, A>::swap_remove": "index out of bounds",
+    "alloc::vec::Vec::<T, A>::insert": "index > len", "alloc::vec::Vec::<T, A>::drain": "range out of bounds", "alloc::vec::Vec::<T, A>::split_off": "at > len",
+    "alloc::string::String::insert": "not a char boundary", "alloc::string::String::insert_str": "not a char boundary", "alloc::string::String::remove": "not a char boundary",
+    "alloc::string::String::truncate": "not a char boundary", "alloc::string::String::drain": "range out of bounds", "alloc::string::String::split_off": "not a char boundary",
+    "alloc::string::String::replace_range": "range out of bounds",
+    "core::cell::RefCell::<T>::borrow": "already mutably borrowed", "core::cell::RefCell::<T>::borrow_mut": "already borrowed",
+    "time::duration::Duration::new": "overflow", "time::duration::Duration::seconds_f64": "overflow", "time::duration::Duration::seconds_f32": "overflow",
+    "time::duration::Duration::minutes": "overflow", "time::duration::Duration::hours": "overflow", "time::duration::Duration::days": "overflow",
+    "time::duration::Duration::weeks": "overflow",
+    "time::offset_date_time::OffsetDateTime::to_offset": "result outside the supported year range",
+    "time::offset_date_time::OffsetDateTime::replace_offset": "-", "time::primitive_date_time::PrimitiveDateTime::assume_offset": "-",
+    "core::time::Duration::from_secs_f64": "negative / overflow / NaN", "core::time::Duration::from_secs_f32": "negative / overflow / NaN",
+    "core::time::Duration::new": "overflow", "std::time::Instant::duration_since": "-",
+    "tokio::time::interval::interval": "period 0", "tokio::time::interval::interval_at": "period 0",
+    "http::header::value::HeaderValue::from_static": "invalid header value", "http::header::name::HeaderName::from_static": "invalid header name",
+    "bytestring::ByteString::from_static": "-", "http::uri::Uri::from_static": "invalid uri",
+    "http::header::map::HeaderMap::<T>::with_capacity": "capacity above 32768", "http::header::map::HeaderMap::<T>::reserve": "capacity above 32768",
+    "core::ops::arith::Add::add": "overflow (non-primitive operands)", "core::ops::arith::Sub::sub": "overflow (non-primitive operands)",
+    "core::ops::arith::Mul::mul": "overflow (non-primitive operands)", "core::ops::arith::Div::div": "division by zero (non-primitive operands)",
+    "core::ops::arith::AddAssign::add_assign": "overflow (non-primitive operands)", "core::ops::arith::SubAssign::sub_assign": "overflow (non-primitive operands)",
+    "core::num::<impl usize>::div_ceil": "division by zero", "core::num::<impl u64>::div_ceil": "division by zero",
+    "core::num::<impl usize>::next_power_of_two": "overflow", "core::num::<impl usize>::pow": "overflow", "core::num::<impl u64>::pow": "overflow",
+    "core::num::<impl u32>::pow": "overflow", "core::num::<impl i64>::pow": "overflow", "core::num::<impl i64>::abs": "overflow",
+    "core::num::<impl i32>::abs": "overflow",
+    "core::str::<impl str>::repeat": "capacity overflow", "alloc::str::<impl str>::repeat": "capacity overflow", "alloc::slice::<impl [T]>::repeat": "capacity overflow",
+    "core::char::from_digit": "radix > 36", "core::char::methods::<impl char>::to_digit": "radix > 36", "core::char::methods::<impl char>::from_digit": "radix > 36",
+    "core::option::Option::<T>::unwrap_unchecked": "-", "core::hint::unreachable_unchecked": "-",
+    "hex_simd::encode_as_str": "output buffer too small", "hex_simd::encode": "output buffer too small", "base64_simd::Base64::encode_as_str": "output buffer too small",
+    "std::thread::spawn": "-", "tokio::task::spawn::spawn": "outside a runtime", "tokio::runtime::handle::Handle::current": "outside a runtime",
+    "tokio::time::sleep::sleep": "outside a runtime (timer disabled)",
+}
+PANICKING_PREFIX = ("core::panicking::", "std::rt::begin_panic", "core::panic::", "std::panicking::")
+SKIP_MACROS = ("tracing", "format_args", "debug", "error", "info", "warn", "trace", "event", "span", "valueset", "fieldset", "callsite", "level_enabled", "enabled")
+
+
+def reachable_bodies(db, roles):
+    roots = [b for b in db.bodies.values() if b.crate == "s3s" and b.name.startswith("s3s::service::S3Service::call")]
+    if not roots:
+        raise AnchorMissing("S3Service::call not found")
+    backend_traits = {roles.S3, roles.S3Auth, roles.S3Access, roles.S3Route, roles.S3Host}
+    impl_index = {}
+    for b in db.bodies.values():
+        if b.crate == "s3s" and b.kind == "AssocFn" and b.impl_trait.startswith("s3s::"):
+            impl_index.setdefault((b.impl_trait, short(b.name)), []).append(b)
+    seen = {}
+    st = list(roots)
+    for r in roots:
+        seen[r.name] = r
+    while st:
+        b = st.pop()
+        for c in b.children:
+            if c.name not in seen:
+                seen[c.name] = c
+                st.append(c)
+        if "dto/generated.rs" in b.text[:600]:
+            pass
+        for bi, t in b.calls():
+            cal = t["callee"]
+            tr = cal.get("trait", "")
+            if tr in backend_traits:
+                continue
+            cands = []
+            for d in (cal.get("resolved"), cal.get("def")):
+                if d and d in db.bodies:
+                    cands.append(db.bodies[d])
+            if tr.startswith("s3s::") and (cal.get("virtual") or not cal.get("resolved") or cal.get("resolved") == cal.get("def")):
+                cands += impl_index.get((tr, short(cal.get("def", ""))), [])
+            for a in t["args"]:
+                if isinstance(a, dict) and a.get("c") == "fn" and a["def"] in db.bodies:
+                    cands.append(db.bodies[a["def"]])
+            for c in cands:
+                if c.crate == "s3s" and c.name not in seen:
+                    seen[c.name] = c
+                    st.append(c)
+    return seen
+
+
+def from_skipped_macro(span):
+    if not span or not span.get("exp"):
+        return False
+    m = span.get("mac", "")
+    last = m.rsplit("::", 1)[-1]
+    return m.startswith("tracing") or last in SKIP_MACROS or "format_args" in m
+
+
+def sites_of(db, b):
+    """panic constructs of one body: list of dicts {kind, callee, bi, loc}"""
+    out = []
+    for bi in b.live_blocks():
+        t = b.blocks[bi]["term"]
+        if t["k"] == "call":
+            d = callee_def(t)
+            if from_skipped_macro(t.get("span")):
+                continue
+            if d in PANIC_CALLEES:
+                out.append({"kind": PANIC_CALLEES[d], "callee": d, "bi": bi})
+            elif d.startswith(PANICKING_PREFIX):
+                mac = (t.get("span") or {}).get("mac", "")
+                out.append({"kind": "panic:" + (mac.rsplit("::", 1)[-1] or short(d)), "callee": d, "bi": bi})
+            elif d.endswith("ops::index::Index::index") or d.endswith("ops::index::IndexMut::index_mut"):
+                out.append({"kind": "index", "callee": d, "bi": bi})
+            elif d in MAY_PANIC_LIB:
+                out.append({"kind": "lib:" + short(d), "callee": d, "bi": bi})
+        elif t["k"] == "assert":
+            if from_skipped_macro(t.get("span")):
+                continue
+            out.append({"kind": "assert:" + str(t.get("kind")), "callee": "", "bi": bi})
+    return out
+
+
+def discharge(db, b, s):
+    """local proof rules; returns reason or None"""
+    bi = s["bi"]
+    t = b.blocks[bi]["term"]
+    f = guards.dominating_facts(b, bi)
+    if s["kind"] in ("unwrap", "expect"):
+        recv = flow.resolve_chain(b, t["args"][0]) or []
+        rl = {l for l, _ in recv}
+        rsl = flow.backward(b, t["args"][0], at=bi)
+        # (i) discriminant tested on a dominating edge
+        for x in f:
+            if x[0] == "enum" and x[3] is not None and x[3][0] in rl and x[2] <= frozenset(["Some", "Ok"]):
+                return "discriminant tested: %s" % sorted(x[2])
+            if x[0] == "call" and x[1] in ("core::option::Option::<T>::is_some", "core::result::Result::<T, E>::is_ok") and x[2] is True:
+                ct = b.blocks[x[3]]["term"]
+                r2 = flow.resolve_chain(b, ct["args"][0]) or []
+                if {l for l, _ in r2} & rl:
+                    return "is_some()/is_ok() tested on the same value"
+            if x[0] == "call" and x[1] in ("core::option::Option::<T>::is_none", "core::result::Result::<T, E>::is_err") and x[2] is False:
+                ct = b.blocks[x[3]]["term"]
+                r2 = flow.resolve_chain(b, ct["args"][0]) or []
+                if {l for l, _ in r2} & rl:
+                    return "is_none()/is_err() == false on the same value"
+        # (ii) definite-Some/Ok typestate of the unwrapped place
+        key = optstate.place_key(b, t["args"][0])
+        if key is not None and optstate.definitely_good(b, key, bi):
+            return "typestate: the place is Some/Ok on every path reaching the unwrap (s3sv/optstate.py)"
+        if key is not None:
+            why = caller_guard(db, b, key, bi)
+            if why:
+                return why
+        # (iii) fmt::Write into a String / (iv) infallible conversions
+        for cb, ct, _ in rsl.calls:
+            d = callee_def(ct)
+            if d == "core::fmt::Write::write_fmt" and ct["args"]:
+                p = flow.op_place(ct["args"][0])
+                ch = flow.resolve_chain(b, ct["args"][0]) or []
+                if any("alloc::string::String" in b.locals[l] for l, _ in ch):
+                    return "fmt::Write into a String cannot fail"
+    if s["kind"].startswith("assert:"):
+        why = discharge_assert(db, b, s)
+        if why:
+            return why
+    return infeasible_otherwise(db, b, bi)
+
+
+def infeasible_otherwise(db, b, bi):
+    """the site is reachable only through the `otherwise` edge of an integer switch whose scrutinee's interval is covered by the explicit arms"""
+    iv = _iv(db)
+    for sb in b.live_blocks():
+        t = b.blocks[sb]["term"]
+        if t["k"] != "switch" or sb == bi:
+            continue
+        edges = b.succ_edges(sb)
+        labs = [(lab, tb) for lab, tb in edges if lab != "otherwise"]
+        oth = [tb for lab, tb in edges if lab == "otherwise"]
+        if not oth or not labs:
+            continue
+        try:
+            vals = [int(lab) for lab, _ in labs]
+        except (TypeError, ValueError):
+            continue
+        p = flow.op_place(t["discr"])
+        if p is None or p["proj"]:
+            continue
+        df = flow.single_def(b, p["l"])
+        if df is not None and df["kind"] == "assign" and df["rv"]["k"] == "discr":
+            continue        # enum discriminant: not an integer scrutinee
+        if bi not in flow.reach(b, [0], stop_blocks=frozenset()) or bi in flow.reach(b, [0], stop_blocks=frozenset([sb])):
+            continue        # sb does not dominate the site
+        via_arms = flow.reach(b, [tb for _, tb in labs if tb not in oth], stop_blocks=frozenset([sb]))
+        if bi in via_arms:
+            continue
+        r = iv.op(b, t["discr"], sb)
+        if r == intervals.EMPTY:
+            return "unreachable: switch scrutinee has an empty range"
+        if r is None or r[1] - r[0] > 64:
+            continue
+        if all(v in vals for v in range(r[0], r[1] + 1)):
+            return "reachable only through the default arm of a switch at %s whose scrutinee has the range %s, all covered by explicit arms" % (b.loc(sb), _fmt(r))
+    return None
+
+
+def caller_guard(db, b, key, bi):
+    """interprocedural typestate: the unwrapped place is a field path of a parameter, the function does not disturb it before the unwrap,
+    the function cannot be called from outside the crate, and every call site passes an argument whose same field path is definitely Some/Ok"""
+    if key[0] != 1 and not (1 <= key[0] <= b.argc):
+        return None
+    if b.kind == "Closure":
+        # coroutine body of an `async fn`: upvar i is parameter j of the parent function
+        f = db.bodies.get(b.parent)
+        if f is None or f.kind not in ("Fn", "AssocFn") or not key[1]:
+            return None
+        aggs = [st for _, _, st in f.stmts() if st["rv"]["k"] == "agg" and st["rv"].get("agg") in ("coroutine", "closure") and st["rv"].get("def") == b.name]
+        if len(aggs) != 1 or len(list(f.live_blocks())) > 2 or key[0] != 1:
+            return None
+        ops = aggs[0]["rv"]["ops"]
+        if key[1][0] >= len(ops):
+            return None
+        p = flow.op_place(ops[key[1][0]])
+        if p is None or p["proj"] or not (1 <= p["l"] <= f.argc):
+            return None
+        j, rest = p["l"], key[1][1:]
+    else:
+        f, j, rest = b, key[0], key[1]
+    if not rest or f.name in db.reachable_fns or f.raw.get("impl_trait"):
+        return None
+    if not optstate.definitely_good(b, key, bi, entry=True):
+        return None
+    callers = db.callers_of(f.name)
+    if not callers:
+        return None
+    # the function must not escape as a value
+    for cb in db.grep(f.name):
+        for _, t in cb.calls():
+            if any(isinstance(a, dict) and a.get("c") == "fn" and a.get("def") == f.name for a in t["args"]):
+                return None
+        for _, _, st in cb.stmts():
+            if any(isinstance(o, dict) and o.get("c") == "fn" and o.get("def") == f.name for o in st["rv"]["ops"]):
+                return None
+    for cb, cbi, t in callers:
+        if len(t["args"]) < j:
+            return None
+        k0 = optstate.place_key(cb, t["args"][j - 1])
+        if k0 is None or not optstate.definitely_good(cb, (k0[0], k0[1] + rest), cbi):
+            return None
+    return "typestate: every one of the %d call sites of %s passes a receiver whose field is Some/Ok at the call, and nothing disturbs it before the unwrap" % (
+        len(callers), f.name.replace("s3s::", ""))
+
+
+_IV = {}
+
+
+def _iv(db):
+    if id(db) not in _IV:
+        _IV.clear()
+        _IV[id(db)] = intervals.Intervals(db)
+    return _IV[id(db)]
+
+
+def _fmt(r):
+    return "empty" if r == intervals.EMPTY else ("?" if r is None else "[%d, %d]" % r)
+
+
+def _cond_def(b, bi):
+    t = b.blocks[bi]["term"]
+    p = flow.op_place(t["cond"])
+    if p is None:
+        return None, None
+    for st in reversed(b.blocks[bi]["stmts"]):
+        if st["dst"]["l"] == p["l"] and not st["dst"]["proj"]:
+            return p, st["rv"]
+    return p, None
+
+
+def _in(v, r):
+    return r is None or (r != intervals.EMPTY and r[0] <= v <= r[1])
+
+
+def discharge_assert(db, b, s):
+    """interval proof that the assert cannot fail (s3sv/intervals.py)"""
+    iv = _iv(db)
+    bi = s["bi"]
+    kind = s["kind"][len("assert:"):]
+    p, rv = _cond_def(b, bi)
+    if rv is None:
+        return None
+    E = intervals.EMPTY
+    if kind.startswith("overflow:") and rv["k"] == "bin" and "WithOverflow" in rv["op"]:
+        A, B = iv.op(b, rv["ops"][0], bi), iv.op(b, rv["ops"][1], bi)
+        if A == E or B == E:
+            return "unreachable: an operand has an empty range"
+        tr = intervals._pair_first_range(b.locals[p["l"]])
+        r = intervals.arith(intervals.base_op(rv["op"]), A, B)
+        if r is not None and tr is not None and tr[0] <= r[0] and r[1] <= tr[1]:
+            return "interval: %s %s %s = %s fits the result type" % (_fmt(A), intervals.base_op(rv["op"]), _fmt(B), _fmt(r))
+        return None
+    if kind == "bounds" and rv["k"] == "bin" and rv["op"] == "Lt":
+        I, L = iv.op(b, rv["ops"][0], bi), iv.op(b, rv["ops"][1], bi)
+        if I == E:
+            return "unreachable: the index has an empty range"
+        if I is not None and L not in (None, E) and I[1] < L[0]:
+            return "interval: index %s < length %s" % (_fmt(I), _fmt(L))
+        return None
+    if kind in ("div0", "rem0") and rv["k"] == "bin" and rv["op"] == "Eq":
+        D = iv.op(b, rv["ops"][0], bi)
+        if not _in(0, D):
+            return "interval: divisor %s excludes 0" % _fmt(D)
+        return None
+    if kind in ("overflow:Div", "overflow:Rem") and rv["k"] == "bin" and rv["op"] == "BitAnd":
+        for o in rv["ops"]:
+            q = flow.op_place(o)
+            df = flow.single_def(b, q["l"]) if q is not None else None
+            if df is None or df["kind"] != "assign" or df["rv"]["k"] != "bin" or df["rv"]["op"] != "Eq":
+                continue
+            X = iv.op(b, df["rv"]["ops"][0], bi)
+            c = intervals.const_value(df["rv"]["ops"][1])
+            if c is not None and not _in(c, X):
+                return "interval: operand %s excludes %d (the only overflowing case of signed division)" % (_fmt(X), c)
+        return None
+    if kind == "overflow:Neg" and rv["k"] == "bin" and rv["op"] == "Eq":
+        X = iv.op(b, rv["ops"][0], bi)
+        c = intervals.const_value(rv["ops"][1])
+        if c is not None and not _in(c, X):
+            return "interval: operand %s excludes the minimum value" % _fmt(X)
+    return None
+
+
+def explain(db, b, s):
+    """what the interval analysis knows about a failing assert (for the report)"""
+    if not s["kind"].startswith("assert:"):
+        return ""
+    try:
+        iv = _iv(db)
+        p, rv = _cond_def(b, s["bi"])
+        if rv is None or rv["k"] != "bin":
+            return ""
+        A, B = iv.op(b, rv["ops"][0], s["bi"]), iv.op(b, rv["ops"][1], s["bi"])
+        if "WithOverflow" in rv["op"]:
+            r = intervals.arith(intervals.base_op(rv["op"]), A, B)
+            return "; interval analysis: %s %s %s = %s, result type holds %s" % (_fmt(A), intervals.base_op(rv["op"]), _fmt(B), _fmt(r), _fmt(intervals._pair_first_range(b.locals[p["l"]])))
+        return "; interval analysis: %s(%s, %s)" % (rv["op"], _fmt(A), _fmt(B))
+    except Exception:
+        return ""
+
+
+def check_lemma(db, s, lem):
+    """re-check the mechanical part of a table entry; returns None if it holds, else what failed"""
+    import re
+    b = s["body"]
+    kind = lem.get("kind")
+    if kind == "callers":
+        f = db.root_of(b)
+        cs = db.callers_of(f.name)
+        if not cs:
+            return "no caller of %s found" % f.name
+        bad = sorted({cb.name for cb, _, _ in cs if not re.match(lem["pattern"], db.root_of(cb).name)})
+        if bad:
+            return "%s is also called from %s, which %s does not cover" % (f.name.replace("s3s::", ""), ", ".join(x.replace("s3s::", "") for x in bad[:3]), lem.get("covered_by"))
+        return None
+    if kind == "const-args":
+        t = b.blocks[s["bi"]]["term"]
+        for a in t["args"]:
+            c = flow.const_of(b, a)
+            if c is None or c.get("c") not in ("str", "bstr", "int"):
+                return "an argument of %s is not a literal" % short(s["callee"])
+        return None
+    if kind == "variant-implies-some":
+        n = 0
+        for cb in db.grep('"adt":"%s"' % lem["adt"]):
+            if cb.raw.get("derived"):
+                continue
+            for bi, si, st in cb.stmts():
+                rv = st["rv"]
+                if not (rv["k"] == "agg" and rv.get("adt") == lem["adt"] and rv.get("variant") == lem["variant"]):
+                    continue
+                n += 1
+                keys = set()
+                for b2, _, st2 in cb.stmts():
+                    for o in st2["rv"]["ops"]:
+                        p = flow.op_place(o)
+                        if p is None:
+                            continue
+                        if any(e[0] == "f" and e[2] == lem["field"] and e[3] == lem["field_adt"] for e in flow.norm_proj(p["proj"])):
+                            k = optstate.place_key(cb, o)
+                            if k is not None:
+                                keys.add(k)
+                if not any(optstate.definitely_good(cb, k, bi) for k in keys):
+                    return "%s::%s is constructed at %s where %s.%s is not known to be Some" % (lem["adt"], lem["variant"], cb.loc(bi), lem["field_adt"], lem["field"])
+        if n == 0:
+            return "no construction of %s::%s found" % (lem["adt"], lem["variant"])
+        # the consuming site must be in a body that only reads the field
+        return None
+    return "unknown lemma kind %r" % kind
+
+
+def load_table():
+    if not os.path.exists(TABLE):
+        return {}
+    with open(TABLE) as fh:
+        d = json.load(fh)
+    return {e["key"]: e for e in d.get("sites", [])}
+
+
+def inventory(db):
+    roles = Roles(db)
+    bodies = reachable_bodies(db, roles)
+    out = []
+    for name, b in sorted(bodies.items()):
+        file = b.span["file"]
+        if file.endswith("dto/generated.rs") or not file.startswith("crates/s3s/"):
+            continue
+        root = db.root_of(b)
+        sites = sites_of(db, b)
+        counters = {}
+        for s in sorted(sites, key=lambda x: x["bi"]):
+            k0 = (s["kind"], short(s["callee"]))
+            counters[k0] = counters.get(k0, 0) + 1
+            s["key"] = "%s|%s|%d" % (b.name.replace("s3s::", ""), s["kind"], counters[k0])
+            s["body"] = b
+            s["loc"] = b.loc(s["bi"])
+            out.append(s)
+    return bodies, out
 
 
 def rule_r5(chk, db, tier):
-    chk.advisory("R5 (panic inventory) not built yet")
+    bodies, sites = inventory(db)
+    table = load_table()
+    chk.stats["request_path_bodies"] = len(bodies)
+    chk.floor("R5.bodies", len(bodies), 400, "bodies reachable from S3Service::call")
+    n_dis = n_tab = n_lem = 0
+    generated = 0
+    for s in sites:
+        b = s["body"]
+        why = discharge(db, b, s)
+        if why:
+            n_dis += 1
+            chk.ok("R5", s["key"], s["loc"], {"discharged": why}, nontrivial=True)
+            continue
+        e = table.get(s["key"])
+        if e is not None:
+            if e.get("lemma"):
+                bad = check_lemma(db, s, e["lemma"])
+                if bad:
+                    chk.fail("R5", s["key"], s["loc"], "the reviewed argument for this panic site no longer holds: %s (oracles/panic_sites.json: %s)" % (bad, e.get("reason")))
+                    continue
+                n_lem += 1
+            n_tab += 1
+            chk.ok("R5", s["key"], s["loc"], {"reviewed": e.get("reason"), "lemma": (e.get("lemma") or {}).get("kind")}, nontrivial=bool(e.get("lemma")))
+            continue
+        chk.fail("R5", s["key"], s["loc"], "panic construct on the request path that no proof rule discharges and the reviewed table does not list: %s%s in %s%s" %
+                 (s["kind"], " (" + short(s["callee"]) + ")" if s["callee"] else "", b.name.replace("s3s::", ""), explain(db, b, s)))
+    chk.stats["panic_sites"] = len(sites)
+    chk.stats["panic_sites_discharged_locally"] = n_dis
+    chk.stats["panic_sites_reviewed_table"] = n_tab
+    chk.stats["panic_sites_reviewed_with_checked_lemma"] = n_lem
+    chk.floor("R5", len(sites), 90, "explicit panic constructs on the request path")
+    chk.floor("R5.discharged", n_dis, 45, "panic constructs discharged by a proof rule")
+    stale = sorted(set(table) - {s["key"] for s in sites})
+    if stale:
+        chk.advisory("%d entries of oracles/panic_sites.json no longer match a site (e.g. %s)" % (len(stale), stale[:2]))
+
+
+if __name__ == "__main__":
+    # helper: print the inventory with source lines (used once to write the reviewed table)
+    import sys
+    from ..facts import load_db
+    db = load_db()
+    bodies, sites = inventory(db)
+    table = load_table()
+    for s in sites:
+        why = discharge(db, s["body"], s)
+        if why or s["key"] in table:
+            continue
+        f, ln = s["loc"].rsplit(":", 1)
+        try:
+            src = open(os.path.join(extract.REPO, f)).read().split("\n")[int(ln) - 1].strip()
+        except Exception:
+            src = "?"
+        print("%s\t%s\t%s" % (s["key"], s["loc"], src[:150]))
